@@ -17,7 +17,8 @@ fn use_stmt(i: usize, d: &Decl) -> String {
 pub fn render(decls: &[Decl], dflt: u32, entry: &str, tg: (u32, u32, u32), uses: &[usize], helper_uses: &[usize], second_pipeline: bool) -> String {
     let mut s = String::from("struct S0 { uint m; };\n");
     for (i, d) in decls.iter().enumerate() {
-        let arr = d.arr.map(|n| format!("[{}]", n)).unwrap_or_default();
+        // length 0 stands for an unbounded array `[]`
+        let arr = d.arr.map(|n| if n == 0 { "[]".to_string() } else { format!("[{}]", n) }).unwrap_or_default();
         let attr = match d.set { Some(g) => format!("[[rssl::bind_group({})]] ", g), None => String::new() };
         let storage = if d.ext { "" } else { "static " };
         match d.kind.as_str() {
@@ -29,7 +30,7 @@ pub fn render(decls: &[Decl], dflt: u32, entry: &str, tg: (u32, u32, u32), uses:
                 let name = k.strip_prefix("o:").unwrap_or(k);
                 let ty = OBJ_KINDS.iter().find(|(n, _)| *n == name).map(|(_, t)| *t).unwrap_or(name);
                 let init = if d.ss { " = StaticSampler { Filter = MIN_MAG_MIP_LINEAR; }" } else { "" };
-                let bindless = if d.arr.map(|n| n >= 16).unwrap_or(false) { "[[rssl::bindless]] " } else { "" };
+                let bindless = if d.arr.map(|n| n >= 16 || n == 0).unwrap_or(false) { "[[rssl::bindless]] " } else { "" };
                 s += &format!("{}{}{}{} g{}{}{};\n", bindless, attr, storage, ty, i, arr, init);
             }
         }
